@@ -110,6 +110,7 @@ impl StreamingQueryExecutor {
             .metadata
             .get_chunks_with_predicates(time_range, &predicates)
             .await?;
+        let chunks = super::without_split_copies(self.metadata.as_ref(), chunks).await?;
 
         let chunk_paths: Vec<String> = chunks
             .iter()
